@@ -103,6 +103,10 @@ var panics []string
 // plainContext: open the watch with context.TODO() instead of a cancellable context that outlives it.
 var plainContext bool
 
+// lazySource: the source does not close its channel when it is stopped (its producer closes it whenever it gets round
+// to it, which within the horizon of an execution is never): stopping the hijacked watch must not depend on it.
+var lazySource bool
+
 var bubbleRe = regexp.MustCompile(`(?m)^goroutine \d+ \[[^\]]*synctest bubble`)
 
 // bubbleGoroutines counts the goroutines of the current synctest bubble.
@@ -150,6 +154,9 @@ func execute(t *testing.T, events []watch.EventType, sched []action) *obs {
 		}
 		// the source ends once the relay stopped it
 		srcEnd := func() {
+			if lazySource {
+				return
+			}
 			if src.stops > 0 && !src.closed && pendingSenders == 0 {
 				src.closed = true
 				close(src.ch)
@@ -383,6 +390,17 @@ func TestC20(t *testing.T) {
 					o.Violations = append(o.Violations, fmt.Sprintf("context-kind-changes-behaviour|with context.TODO(): received=%v closed=%v violations=%v; with a cancellable context that outlives the watch: received=%v closed=%v violations=%v", o3.Received, o3.Closed, o3.Violations, o.Received, o.Closed, o.Violations))
 				}
 			}
+			if len(seq) <= 1 {
+				// the same schedule over a source that does not close its channel on Stop
+				lazySource = true
+				o4 := execute(t, seq, sched)
+				lazySource = false
+				execs++
+				for _, v := range o4.Violations {
+					p := strings.SplitN(v, "|", 2)
+					o.Violations = append(o.Violations, p[0]+"|over a source that does not close its channel when stopped: "+p[1])
+				}
+			}
 			label := fmt.Sprintf("events=%v schedule=%v", seq, sched)
 			rep.Count(sha(label), len(sched) > 0, fmt.Sprintf("received=%d closed=%v violations=%d", len(o.Received), o.Closed, len(o.Violations)))
 			outcomes[fmt.Sprint(o.Received, o.Closed)]++
@@ -410,7 +428,7 @@ func TestC20(t *testing.T) {
 	rep.Extra["schedules_executed"] = execs
 	rep.Extra["distinct_consumer_observations"] = len(outcomes)
 	rep.Extra["max_schedule_length"] = maxLen
-	rep.Rule = fmt.Sprintf("stateless exploration of the real hijack watch (opened through the real hijack client) under a controlled scheduler built on testing/synctest: the harness owns the source (unbuffered channel, stop-aware send, ends when stopped) and the consumer; the watch is opened with a cancellable context that outlives it (cancelled only after the verdict; for event sequences of length <=1 every schedule is executed again with context.TODO() and must be observed identically); after every action synctest.Wait() runs the relay goroutine to its next blocking point, so every schedule is deterministic (first 200 schedules executed twice and compared). Actions: offer next event, close source, consumer receive (only when something is deliverable), consumer Stop (<=2); every prefix of every schedule up to length %d is executed and judged as 'the consumer does nothing more from here'. Event sequences: all over {Added, Modified, Deleted, Bookmark, Error} up to length 2, length 3 over %v. Oracle: received = the source's events in order with equal type and equivalent built-in object (Error statuses relayed), no panic in the relay, and once the consumer stopped or the source ended the result channel is closed and no goroutine of the watch remains. Three further scenarios put a scheduling point inside Stop (a source whose Stop blocks until released; each in a child process): consumer/consumer, relay/consumer and consumer/relay overlapping Stop calls must neither panic nor leave the channel open. Non-trivial = non-empty schedule.", maxLen, third)
+	rep.Rule = fmt.Sprintf("stateless exploration of the real hijack watch (opened through the real hijack client) under a controlled scheduler built on testing/synctest: the harness owns the source (unbuffered channel, stop-aware send, ends when stopped) and the consumer; the watch is opened with a cancellable context that outlives it (cancelled only after the verdict; for event sequences of length <=1 every schedule is executed again with context.TODO() and must be observed identically, and once more over a source that does not close its channel when it is stopped, under the same oracle); after every action synctest.Wait() runs the relay goroutine to its next blocking point, so every schedule is deterministic (first 200 schedules executed twice and compared). Actions: offer next event, close source, consumer receive (only when something is deliverable), consumer Stop (<=2); every prefix of every schedule up to length %d is executed and judged as 'the consumer does nothing more from here'. Event sequences: all over {Added, Modified, Deleted, Bookmark, Error} up to length 2, length 3 over %v. Oracle: received = the source's events in order with equal type and equivalent built-in object (Error statuses relayed), no panic in the relay, and once the consumer stopped or the source ended the result channel is closed and no goroutine of the watch remains. Three further scenarios put a scheduling point inside Stop (a source whose Stop blocks until released; each in a child process): consumer/consumer, relay/consumer and consumer/relay overlapping Stop calls must neither panic nor leave the channel open. Non-trivial = non-empty schedule.", maxLen, third)
 	rep.Assumptions = []string{"rendezvous granularity: between two channel operations the relay touches shared state only under Stop's mutex; a separate free-running -race pass of the same bodies (TestC20Race) guards that premise", "goroutine leaks are counted with runtime.NumGoroutine relative to the count before the watch was opened, inside the synctest bubble"}
 	rep.Extra["overlapping_stop_scenarios"] = runOverlapScenarios(rep)
 	race := os.Getenv("VERIF_C20_RACE")
